@@ -3,11 +3,13 @@
    constants, resonance mass/width variables, one declaration per parameter line, the code of every amplitude).
    The content is computed once in the model: that each language's text carries exactly this content is what the
    correspondence establishes on every run (by parsing both texts), so "the two outputs contain the same ..." is a
-   consequence of the two ties.  Executed only: declaration-before-use on the texts incl. spline / f_scatt / IS_poles
-   arrays, execution of the Python text against a stand-in goofit module, returned string vs printed text, the
-   command-line entry point. *)
+   consequence of the two ties.  Declaration before use: Amp/Symbols.v gives, for each section of the output in text order, the
+   model symbols it declares and uses (incl. the spline / f_scatt / IS_poles arrays and what each kind of lineshape names);
+   C19_symbols_declared_before_use proves that every use has an earlier declaration; the correspondence compares this
+   structure with what both texts contain.  Executed only: execution of the Python text against a stand-in goofit module,
+   returned string vs printed text, the command-line entry point. *)
 From Coq Require Import String List Bool ZArith QArith.
-From DL Require Import Lib.Val Amp.Syntax Amp.Read Amp.GooFit Amp.Session Amp.Convert Amp.ConvertProofs Gen.GenAmp.
+From DL Require Import Lib.Val Lib.PyDict Amp.Syntax Amp.Read Amp.GooFit Amp.Session Amp.Convert Amp.ConvertProofs Amp.Symbols Amp.SymbolsProofs Gen.GenAmp.
 Import ListNotations.
 Close Scope Q_scope.
 Open Scope string_scope.
@@ -39,3 +41,44 @@ Example C19_programmatic_names :
   map programmatic ["K(1)(1270)bar-::Spline::Gamma::10"; "sA_0"; "K*(892)~0"; "D0"] =
   ["K_1_1270bar_minus_Spline_Gamma_1_0"; "sA__0"; "Kst_892_0_bar"; "D_0"].
 Proof. vm_compute. reflexivity. Qed.
+
+(* Every model symbol the generated code uses is declared earlier in the same output.  flatten_syms lists the symbols in text
+   order (constants, resonance variables, the particle_masses line, one variable per parameter line, the arrays with their
+   members, then what every lineshape of every amplitude names); so' is the output with the groups Python leaves unordered
+   (sets, pandas indexes) in any order.  Premise, as in the property: the file defines what its lineshapes need
+   (defines_needed: spline constants for a spline lineshape; sA_0, sA, s0_prod, s0_scatt and a member of each of the
+   f_scatt / IS_p families for a K-matrix lineshape; no resonance named like an event-type particle). *)
+Theorem C19_symbols_declared_before_use : forall pid_of info sfk fuel config f so so',
+  symbols pid_of info sfk fuel config f = Some so ->
+  (forall c, convert pid_of info sfk fuel config f = Some c -> defines_needed info c (const_names_of f)) ->
+  sym_equiv so so' ->
+  forall l1 n l2, flatten_syms so' = (l1 ++ SUse n :: l2)%list -> In (SDef n) l1.
+Proof. intros pid_of info sfk fuel config f so so' H Hp He. exact (symbols_declared_before_use pid_of info sfk fuel config f so so' H Hp He). Qed.
+Print Assumptions C19_symbols_declared_before_use.
+
+(* non-vacuity: a file with a spline and a K-matrix lineshape that meets the premise; its arrays are declared and used *)
+Definition ex19 : list oline :=
+  [OEvent ["D0"; "K-"; "pi+"; "pi+"; "pi-"];
+   OCplx (DNode "D0" None None [DNode "K(1)(1270)bar-" None (Some "GSpline.EFF")
+            [DNode "PiPi00" None (Some "kMatrix.prod.0") [DNode "pi+" None None []; DNode "pi-" None None []]; DNode "K-" None None []];
+            DNode "pi+" None None []])
+         {| fc_fix := "1"; fc_val := "1.0"; fc_err := "0.1" |} {| fc_fix := "0"; fc_val := "-0.390311"; fc_err := "0.1" |};
+   OVar "K(1)(1270)bar-::Spline::Gamma::1" "0" "2" "0.01"; OVar "K(1)(1270)bar-::Spline::Gamma::0" "2" "0.25" "0";
+   OConst "K(1)(1270)bar-::Spline::N" "2"; OConst "K(1)(1270)bar-::Spline::Max" "1.9"; OConst "K(1)(1270)bar-::Spline::Min" "0.18412";
+   OVar "s0_scatt" "2" "0" "0.01"; OVar "sA" "2" "0.25" "0.01"; OVar "s0_prod" "0" "-1.5" "0"; OVar "sA_0" "0" "-0.390311" "0.01";
+   OVar "f_scatt0" "2" "0.5" "0"; OVar "f_scatt1" "2" "1" "0"; OVar "IS_p1_pipi" "2" "2.01551" "0"; OVar "IS_p1_KK" "2" "1" "0"].
+Definition ex_pid_of (n : string) : option Z := pd_get n amp_names.
+Definition ex_info (p : Z) : option pinfo := zlookup p amp_particles.
+Example C19_symbols_example :
+  (forall c, convert ex_pid_of ex_info known_spinfactors 40 false ex19 = Some c -> defines_needed ex_info c (const_names_of ex19)) /\
+  exists so, symbols ex_pid_of ex_info known_spinfactors 40 false ex19 = Some so /\
+             map fst (so_arrays so) = ["K_1_1270bar_minus_SplineArr"; "f_scatt"; "IS_poles"] /\
+             In "K_1_1270bar_minus_SplineArr" (concat (concat (so_amps so))) /\ In "IS_poles" (concat (concat (so_amps so))).
+Proof.
+  split.
+  - intros c Hc. apply defines_needed_b_sound.
+    assert (E : option_map (fun c0 => defines_needed_b ex_info c0 (const_names_of ex19)) (convert ex_pid_of ex_info known_spinfactors 40 false ex19) = Some true)
+      by (vm_compute; reflexivity).
+    rewrite Hc in E. injection E as E. exact E.
+  - eexists. split; [vm_compute; reflexivity|]. split; [vm_compute; reflexivity|]. split; vm_compute; tauto.
+Qed.
